@@ -62,6 +62,9 @@ def family(name, rnd, n, offset):
         return [dict(uid=offset + i // 4, region=["eu", "us", "apac", "latam"][i % 4]) for i in range(n)]
     if name == "three-field":
         return [dict(region=["eu", "us"][i % 2], uid=offset + i // 6, device=["ios", "android", "web"][(i // 2) % 3]) for i in range(n)]
+    if name == "mirrored-fields":
+        # personal accounts: the account id equals the user id
+        return [dict(uid=offset + i, account=offset + i) for i in range(n)]
     if name == "common-prefix":
         return [dict(uid=f"tenant-000042/customer/{offset + i:012d}") for i in range(n)]
     if name == "float-ids":
@@ -69,9 +72,9 @@ def family(name, rnd, n, offset):
     raise ValueError(name)
 
 
-BIG_OFFSET_FAMILIES = {"sequential-int", "sequential-str", "two-field", "three-field", "email", "common-prefix"}
+BIG_OFFSET_FAMILIES = {"mirrored-fields", "sequential-int", "sequential-str", "two-field", "three-field", "email", "common-prefix"}
 FAMILIES = ["sequential-int", "sequential-str", "zero-padded", "uuid-random", "uuid-time-ordered", "email", "hex-session",
-            "two-field", "three-field", "common-prefix", "float-ids"]
+            "two-field", "three-field", "common-prefix", "float-ids", "mirrored-fields"]
 
 
 def program(vec, salt, fields, shape="plain"):
@@ -87,8 +90,8 @@ def program(vec, salt, fields, shape="plain"):
     return f"def pop {{ {s}splitters: {', '.join(fields)} {body} }}"
 
 
-def assign(im, text, pop):
-    c = im.construct(text)
+def assign(im, text, pop, built=None):
+    c = built or im.construct(text)
     if c[0] != "ok":
         return None, c
     ev = c[1]
@@ -126,9 +129,11 @@ def run(ctx):
         if shape == "condition-field":
             pop = [dict(e, tier="std") for e in pop]
         ctx.seen("program_shapes", shape)
+        # both evaluators are built before either is used, as in a service that hosts several experiments
+        built = {salt: im.construct(program(vec, salt, fields, shape)) for salt in (s1, s2)}
         for salt in (s1, s2):
             text = program(vec, salt, fields, shape)
-            got, err = assign(im, text, pop)
+            got, err = assign(im, text, pop, built[salt])
             ctx.evaluated(len(pop))
             if got is None:
                 ctx.violation("evaluation-failed", dict(text=text, family=fam, error=err), mechanism="C04/evaluation-failed")
